@@ -42,9 +42,18 @@ def run(prog, rep, tier):
             if fv.key != on_open.key:
                 r1.fail(fv.name, "writer:" + fld, "%s is written outside on_open" % fld, fv.loc(bi))
                 continue
-            e = Renderer(fv, depth=12).rvalue(s["rv"], 12)
+            e = Renderer(fv, depth=16, through_names=True).rvalue(s["rv"], 16)      # hoisted lets are looked through
+            def _is_min(x):
+                while isinstance(x, tuple) and x and x[0] in ("cast", "ref", "deref"):
+                    x = x[1]
+                if not (isinstance(x, tuple) and x and x[0] == "call" and re.search(r"cmp::min$|Ord::min$", x[1]) and len(x[2]) == 2):
+                    return False
+                a_, b_ = x[2]
+                loc = lambda y: "local_holdtime" in expr_fields(y)
+                rem = lambda y: "remote_holdtime" in expr_fields(y) or (any(c.endswith("HoldTime::seconds") for c in expr_calls(y)) and "holdtime" in expr_fields(y))
+                return (loc(a_) and rem(b_)) or (loc(b_) and rem(a_))
             if want == "min":
-                ok = e[0] == "call" and re.search(r"cmp::min$|Ord::min$", e[1]) and "local_holdtime" in expr_fields(e) and "remote_holdtime" in expr_fields(e)
+                ok = _is_min(e)
                 if ok:
                     r1.ok("negotiated_holdtime = min(local_holdtime, remote_holdtime)")
                 else:
@@ -53,7 +62,7 @@ def run(prog, rep, tier):
                 ee = e
                 while ee[0] == "field" and ee[2] in ("0",):
                     ee = ee[1]
-                ok = ee[0] == "bin" and ee[1] == "Div" and "negotiated_holdtime" in expr_fields(ee[2]) and ee[3][0] == "const" and ee[3][1] == 3
+                ok = ee[0] == "bin" and ee[1] == "Div" and ("negotiated_holdtime" in expr_fields(ee[2]) or _is_min(ee[2])) and ee[3][0] == "const" and ee[3][1] == 3
                 if ok:
                     r1.ok("keepalive_interval = negotiated_holdtime / 3")
                 else:
@@ -104,8 +113,16 @@ def run(prog, rep, tier):
                     continue
                 flds = set(expr_fields(e))
                 nz = False
-                for g, labels, how in flat_guards(fv, bi):
-                    if g[0] == "bin" and g[1] in ("Ne", "Eq", "Gt", "Lt") and (set(expr_fields(g)) & (flds | {"negotiated_holdtime"})):
+                # hoisted lets (`let agreed = min(..); if agreed != 0 { let ka = agreed / 3; .. }`) are looked through: the tested
+                # quantity must be the interval itself or the hold time it is derived from
+                rn_ = Renderer(fv, depth=16, through_names=True)
+                en_ = rn_.operand(op, 16)
+                flds |= set(expr_fields(en_))
+                from ..cfg import branches as _brs
+                for g, labels, how in flat_guards(fv, bi, _brs(fv, rn_)):
+                    tested_ = [x for x in (g[2], g[3]) if not (isinstance(x, tuple) and x and x[0] == "const")] if g[0] == "bin" else []
+                    same_ = any(show(t_, 400) in show(en_, 2000) for t_ in tested_ if isinstance(t_, tuple) and t_[0] != "const" and len(show(t_, 400)) > 8)
+                    if g[0] == "bin" and g[1] in ("Ne", "Eq", "Gt", "Lt") and ((set(expr_fields(g)) & (flds | {"negotiated_holdtime"})) or same_):
                         zero = any(x[0] == "const" and x[1] == 0 for x in (g[2], g[3]))
                         if not zero:
                             continue
